@@ -287,6 +287,41 @@ def _check_type_requirements_for_field(
     else:
         type_size = None
 
+    if (
+        field_is_atomic
+        and referenced_type_definition.has_field("structure")
+        and referenced_type_definition.addressable_unit == ir_data.AddressableUnit.BIT
+        and type_definition.addressable_unit == ir_data.AddressableUnit.BYTE
+    ):
+        # A `bits` in a `struct` is read as a single integer of the field's size,
+        # so that size has to be known at compile time and at most 64 bits.
+        if field_min_size != field_max_size:
+            errors.append(
+                [
+                    error.error(
+                        source_file_name,
+                        type_ir.source_location,
+                        "`bits` {} cannot be placed in a dynamically-sized "
+                        "field.".format(_render_type(type_ir, ir)),
+                    )
+                ]
+            )
+            return
+        if field_max_size > 64:
+            errors.append(
+                [
+                    error.error(
+                        source_file_name,
+                        type_ir.source_location,
+                        "`bits` {} cannot be placed in field of size {} bits; "
+                        "fields of `bits` types must be 64 bits or smaller.".format(
+                            _render_type(type_ir, ir), field_max_size
+                        ),
+                    )
+                ]
+            )
+            return
+
     if element_size is not None and type_size is not None and element_size != type_size:
         errors.append(
             [
